@@ -1750,6 +1750,18 @@ class FnCtx:
                         return v
             return self.top_for(t)
         if tag == "discr":
+            # the variant number of a value whose possible variants are known (a Result that can only be Ok here)
+            a = self.av(t[1], at, edge)
+            while a[0] == "r":
+                a = a[1]
+            if a[0] == "b":
+                return BOT
+            if a[0] == "e" and a[1]:
+                std = {"Ok": 0, "Err": 1, "None": 0, "Some": 1, "Continue": 0, "Break": 1}
+                names = [n for n, _v in a[1]]
+                if all(n in std for n in names):
+                    idx = sorted({std[n] for n in names})
+                    return I(idx[0], idx[-1], frozenset(idx))
             return self.top_for(t) if self.ft.tyof(t) else I(0, 255)
         if tag in ("index", "cindex"):
             a = self.av(t[1], at, edge)
